@@ -124,7 +124,7 @@ func genIdle(t *rapid.T) int { return rapid.SampledFrom([]int{0, 0, 0, 10, 30}).
 // is in flight while a same-tuple WebSocket subscriber could be affected), so the search continues
 // behind them; with steer=false everything is allowed.
 func genStepped(t *rapid.T) Case {
-	if rapid.IntRange(0, 7).Draw(t, "chain") == 0 {
+	if rapid.IntRange(0, 9).Draw(t, "chain") == 0 {
 		return genChain(t)
 	}
 	c := Case{IdleMs: genIdle(t), LegacyFirst: rapid.IntRange(0, 4).Draw(t, "legacy") == 0}
@@ -412,8 +412,10 @@ func genChain(t *rapid.T) Case {
 		tp.Proto = 0
 	}
 	c := Case{Tuples: []Tuple{tp}, LegacyFirst: rapid.IntRange(0, 4).Draw(t, "c.legacy") == 0}
-	expendable := rapid.IntRange(4, 7).Draw(t, "c.expendable")
-	survivors := rapid.IntRange(1, 2).Draw(t, "c.survivors")
+	// Which waiter wins the race for the next dial is up to the scheduler, and finding the winner costs
+	// expendable callers (see outcome.abandon), so there are many of them and usually a single survivor.
+	expendable := rapid.IntRange(5, 9).Draw(t, "c.expendable")
+	survivors := rapid.SampledFrom([]int{1, 1, 1, 2}).Draw(t, "c.survivors")
 	for i := 0; i < expendable+survivors; i++ {
 		c.Subs = append(c.Subs, Sub{Tuple: 0, Nexts: rapid.IntRange(0, 2).Draw(t, "c.nexts"), Term: rapid.SampledFrom([]string{"none", "complete"}).Draw(t, "c.term")})
 	}
@@ -438,7 +440,7 @@ func genChain(t *rapid.T) Case {
 	for i := 1; i < expendable; i++ {
 		c.Steps = append(c.Steps, Step{Op: "sub", Sub: i})
 	}
-	rounds := rapid.IntRange(3, 5).Draw(t, "c.rounds")
+	rounds := rapid.IntRange(3, 6).Draw(t, "c.rounds")
 	for r := 0; r < rounds; r++ {
 		c.Steps = append(c.Steps, Step{Op: "abandon", Key: 0, Sub: first})
 		if other >= 0 && r == 1 {
